@@ -10,6 +10,7 @@ from __future__ import annotations
 from typing import Any, List
 
 from mc import codec
+from mc.report import guard_harness as _guard
 from mc.report import add_sample, add_violation, count, new_part
 
 LEVEL = "exploration"
@@ -47,12 +48,14 @@ def judge(route: str, what: str, sub, flav: str, case, part, requested_app_id=No
     from netqasm.lang.parsing.binary import deserialize
     try:
         raw = bytes(sub)
-    except Exception:
+    except Exception as exc:
+        _guard(exc)
         count(part, f"rejected/{route}/{what}")
         return
     try:
         dec = deserialize(raw, codec.flavour(flav))
-    except Exception:
+    except Exception as exc:
+        _guard(exc)
         count(part, f"undecodable/{route}/{what}")   # bytes that nothing accepts: not a *valid-looking* program
         return
     want_app = sub.app_id if requested_app_id is None else requested_app_id
@@ -122,7 +125,8 @@ def shard_direct(shard):
                 try:
                     instr = codec.make_instr(cls, kinds, lv)
                     sub = Subroutine(instructions=[instr], app_id=1, netqasm_version=(0, 0))
-                except Exception:
+                except Exception as exc:
+                    _guard(exc)
                     count(part, f"rejected/direct/{what}")
                     continue
                 judge("direct", what, sub, flav, case, part)
@@ -137,7 +141,8 @@ def shard_direct(shard):
                     if not _mutate_to(old, instr):
                         count(part, "operands-immutable")
                         continue
-                except Exception:
+                except Exception as exc:
+                    _guard(exc)
                     count(part, f"rejected/direct-after-encode/{what}")
                     continue
                 judge("direct-after-encode", what, sub2, flav, dict(case, route="direct-after-encode"), part)
@@ -181,7 +186,8 @@ def shard_header(shard):
                             sub.app_id = app_id
                         else:
                             sub.instantiate(app_id, {})
-                except Exception:
+                except Exception as exc:
+                    _guard(exc)
                     count(part, "rejected/direct/app-id")
                     continue
                 judge("direct", "app-id", sub, "vanilla", case, part, requested_app_id=app_id)
@@ -194,7 +200,8 @@ def shard_header(shard):
             instr = codec.make_instr(cls, ["reg", "int32"], [(0, 1), 5])
             try:
                 sub = Subroutine(instructions=[instr], app_id=3, netqasm_version=tuple(ver))
-            except Exception:
+            except Exception as exc:
+                _guard(exc)
                 count(part, "rejected/direct/version-byte")
                 continue
             judge("direct", "version-byte", sub, "vanilla", {"route": "direct", "header": "version", "version": ver}, part)
@@ -246,7 +253,8 @@ def shard_text(shard):
             case = {"route": "text", "flavour": flav, "text": text, "field": p, "value": v}
             try:
                 sub = parse_text_subroutine(text, flavour=codec.flavour(flav))
-            except Exception:
+            except Exception as exc:
+                _guard(exc)
                 count(part, f"rejected/text/{what}")
                 continue
             # the parser must have understood what was written (else it is a different defect: mis-parse)
@@ -262,7 +270,8 @@ def shard_text(shard):
         part["distinct"] += 1
         try:
             sub = parse_text_subroutine(text, flavour=codec.flavour(flav))
-        except Exception:
+        except Exception as exc:
+            _guard(exc)
             count(part, "rejected/text/app-id")
             continue
         judge("text", "app-id", sub, flav, {"route": "text", "text": text}, part)
@@ -338,7 +347,8 @@ def shard_sdk(shard):
             q = Qubit(conn)
             build(conn, q, v)
             conn.flush()
-        except Exception:
+        except Exception as exc:
+            _guard(exc)
             count(part, f"rejected/sdk/{what}")
             continue
         if not conn.subs:
@@ -363,7 +373,8 @@ def shard_sdk(shard):
                 q = Qubit(conn)
                 q.H()
                 conn.flush()
-            except Exception:
+            except Exception as exc:
+                _guard(exc)
                 count(part, "rejected/sdk/app-id")
                 continue
             judge("sdk", "app-id", conn.subs[-1], "vanilla", case, part)
